@@ -3,8 +3,8 @@
     [ast_nodes] are regenerated from the current source on every run. *)
 From Coq Require Import List NArith Bool String.
 From TG.Gen Require Import GenTokens GenLexTables GenGrammar GenAst GenDocGrammar.
-From TG.Model Require Import Chars Lexer Tree GInterp DocGrammar Completion GramAbs GramCert AstAccess AstAccessInst.
-From TG.Proofs Require Import GramSound AccessProofs C04Proofs.
+From TG.Model Require Import Chars Lexer Tree ParserPrims GInterp DocGrammar Completion GramAbs GramCert AstAccess AstAccessInst TokSem.
+From TG.Proofs Require Import GramSound AccessProofs TokRefine TokFrame TokComplete TokType TokRange C04Proofs.
 Import ListNotations.
 Close Scope string_scope.
 Open Scope list_scope.
@@ -43,6 +43,88 @@ Theorem C04_complete_partial :
   forall txt, In txt doc_cover_sentences -> exists t st, parse_with parse_fuel grammar_prog grammar_entry txt = ParseOk t [] st.
 Proof. exact C04_complete_partial_proof. Qed.
 Print Assumptions C04_complete_partial.
+
+(** Completeness direction, for the COVERED nonterminals and ALL their words, in ALL contexts:
+    [fin_covered] = BitType IntType StringType DagType CodeType BitsType ClassId Integer String Code Boolean Uninitialized
+                    Identifier RangePiece FieldSuffix Include            (the rules with a finite language; with their functions)
+    For every word w of the documented rule (doc_rules_must = syntax.md + rule comments, minus the rejects:* deltas), every
+    admissible follower token k ([fin_followers]: COMPUTED; all 112 token kinds except StrVal after String/Include and
+    Minus / DotDotDot / IntVal after RangePiece) and every parser state whose upcoming tokens are  w ++ k :: rest  (no lexical
+    error token among them), the grammar function returns true having consumed exactly w and recorded NO error - unless the
+    model panics (excluded by C02).  Infinite languages are below: Type/ListType (recursion: C04_complete_type), RangeList / RangeSuffix
+    (Kleene star: C04_complete_rangelist, C04_complete_rangesuffix).  NOT covered (still only C04_complete_partial + the
+    oracle): Value and everything that contains it (the statements); see design/notes-C04.md for what a proof would need. *)
+Theorem C04_complete_for : forall nf, In nf fin_covered ->
+  forall w k rest s, derives doc_rules_must (fst nf) w -> In k (fin_followers nf) ->
+    Toks s (w ++ k :: rest) -> after_err s = false ->
+    match gexec cfuel grammar_prog (ECall (snd nf) None) [] s with
+    | RPanic => True
+    | RVal v _ s' => v = VB true /\ Toks s' (k :: rest) /\ nerr s' = nerr s /\ after_err s' = false
+    | _ => False
+    end.
+Proof. exact C04_complete_for_proof. Qed.
+Print Assumptions C04_complete_for.
+(** the covered table resolves completely and is not vacuous (every covered rule has words; >= 100 admissible followers) *)
+Check fin_covered_resolved : List.length fin_covered = List.length fin_covered_names.
+Check fin_covered_nonvacuous.
+
+(** The RECURSIVE nonterminal Type (Type ::= BitType | IntType | StringType | DagType | BitsType | ListType | ClassId,
+    ListType ::= "list" "<" Type ">"): EVERY word, every follower token, every context; by induction on the derivation
+    (the fuel needed grows with the nesting depth, hence "for all sufficiently large fuels") *)
+Theorem C04_complete_type : forall w, derives doc_rules_must nt_Type w ->
+  exists n0, forall n k rest s, n0 <= n -> Toks s (w ++ k :: rest) -> after_err s = false ->
+    match gexec n grammar_prog (ECall f_type None) [] s with
+    | RPanic => True
+    | RVal v _ s' => v = VB true /\ Toks s' (k :: rest) /\ nerr s' = nerr s /\ after_err s' = false
+    | _ => False
+    end.
+Proof. exact type_complete_model. Qed.
+Print Assumptions C04_complete_type.
+Example C04_type_word_example :
+  derives doc_rules_must nt_Type [T_List; T_Less; T_List; T_Less; T_Bits; T_Less; T_IntVal; T_Greater; T_Greater; T_Greater].
+Proof. exact type_word_example. Qed.
+
+(** A KLEENE STAR: RangeList ::= RangePiece ( "," RangePiece )*  (infinite language; induction on the number of pieces over
+    the `while !eof { range_piece(); if !eat_if(,) break }` loop of `range_list`) and RangeSuffix ::= "{" RangeList "}".
+    RangeList: every word, every context, every follower except  ,  -  ...  IntVal  (after which the documented grammar
+    itself continues the list or the last piece); RangeSuffix: every word, EVERY follower, every context. *)
+Theorem C04_complete_rangelist : forall w, derives doc_rules_must nt_RangeList w ->
+  exists n0, forall n k rest s, n0 <= n -> In k rl_followers -> Toks s (w ++ k :: rest) -> after_err s = false ->
+    match gexec n grammar_prog (ECall f_range_list None) [] s with
+    | RPanic => True
+    | RVal v _ s' => v = VB true /\ Toks s' (k :: rest) /\ nerr s' = nerr s /\ after_err s' = false
+    | _ => False
+    end.
+Proof. exact range_list_complete_model. Qed.
+Print Assumptions C04_complete_rangelist.
+Theorem C04_complete_rangesuffix : forall w, derives doc_rules_must nt_RangeSuffix w ->
+  exists n0, forall n k rest s, n0 <= n -> Toks s (w ++ k :: rest) -> after_err s = false ->
+    match gexec n grammar_prog (ECall f_range_suffix None) [] s with
+    | RPanic => True
+    | RVal v _ s' => v = VB true /\ Toks s' (k :: rest) /\ nerr s' = nerr s /\ after_err s' = false
+    | _ => False
+    end.
+Proof. exact range_suffix_complete_model. Qed.
+Print Assumptions C04_complete_rangesuffix.
+Check range_fn_names : fn_name f_range_list = "range_list"%string /\ fn_name f_range_suffix = "range_suffix"%string.
+Example C04_rangelist_followers : List.length rl_followers = 108 /\ In T_RBrace rl_followers /\ In T_Greater rl_followers /\ In T_Semi rl_followers.
+Proof. vm_compute. tauto. Qed.
+Example C04_rangesuffix_word_example :
+  derives doc_rules_must nt_RangeSuffix
+    [T_LBrace; T_IntVal; T_Comma; T_IntVal; T_Minus; T_IntVal; T_Comma; T_IntVal; T_DotDotDot; T_IntVal; T_RBrace].
+Proof. exact range_suffix_example. Qed.
+
+(** The two generic theorems behind it (for EVERY grammar program): the full parser model refines to the token-level
+    semantics [texec] (token kinds only), and a token-level run that leaves a token unread is unchanged by appending tokens
+    and by a larger initial error count (one-token look-ahead). *)
+Theorem C04_token_level_refines : forall p n e en ten s ts, TR s ts -> env_rel en ten ->
+  prim_ok (gexec n p e en s) (texec n p e ten ts).
+Proof. exact refine. Qed.
+Print Assumptions C04_token_level_refines.
+Theorem C04_token_level_frame : forall p rest d n e en ts, unread (texec n p e en ts) ->
+  texec n p e en (frame rest d ts) = frame_res rest d (texec n p e en ts).
+Proof. exact texec_frame. Qed.
+Print Assumptions C04_token_level_frame.
 
 (** Typed accessors.  [kid_frames] = for every node kind the possible multisets of child node kinds, computed from
     [grammar_prog] by the reflective analysis of model/AstAccess.v (start_node / start_node_at / finish_node on all paths).
